@@ -47,6 +47,15 @@ def gen_case(rng):
         if rng.random() < 0.1:
             for cs in spec["checks"]:
                 cs["ignoreNa"] = False
+    # an ordered schema with an optional column that the table lacks, followed by columns that are present
+    if rng.random() < 0.12 and len(S["columns"]) >= 2:
+        present = [col["name"] for col in D["cols"]]
+        cand = [sp for sp in S["columns"][:-1] if sp["name"] in present]
+        if cand:
+            sp = rng.choice(cand)
+            sp["required"] = False
+            D["cols"] = [col for col in D["cols"] if col["name"] != sp["name"]]
+            S["ordered"] = True
     # defaults on present columns (required or optional), with a missing value to fill now and then
     by = {col["name"]: col for col in D["cols"]}
     for spec in S["columns"]:
@@ -351,7 +360,8 @@ def anchoring_sweep(rep, rng, n):
     import pandera.polars as pap
     for _ in range(n):
         alts = rng.sample(["a", "b", "x1", "cb", "1", "ab"], rng.randint(2, 3))
-        pat = "|".join(alts)
+        # (a pattern the user anchored already, at its first alternative only, is still one pattern)
+        pat = rng.choice(["", "", "^"]) + "|".join(alts)
         strings = [rng.choice(["z", "q", ""]) + rng.choice(alts) + rng.choice(["", "z"]) for _ in range(4)] + alts
         case = {"mode": "builtin", "b": {"strMatches": pat}, "strings": strings}
         with warnings.catch_warnings():
